@@ -726,6 +726,39 @@ theorem hardLines_eq_split (cells : List VaxisModel.Model.Wrap.Cell) :
     obtain ⟨ls, h1, h2⟩ := hardLoop_split cells [] hne cells.length hlen
     simp only [hardAll, hardScan, he', Bool.false_eq_true, ↓reduceIte, h1, h2]
 
+open VaxisModel.Model.Wrap in
+theorem textHardLoop_eq_split : ∀ (cs cur : List VaxisModel.Model.Wrap.Cell), cs ≠ [] →
+    textHardLoop cur cs = VaxisModel.Spec.WrapDraw.splitNlAux cur cs := by
+  intro cs
+  induction cs with
+  | nil => intro cur h; exact absurd rfl h
+  | cons c cs ih =>
+    intro cur _
+    cases cs with
+    | nil =>
+      by_cases hc : c.nl = true
+      · simp [textHardLoop, VaxisModel.Spec.WrapDraw.splitNlAux, hc]
+      · simp [textHardLoop, VaxisModel.Spec.WrapDraw.splitNlAux, hc]
+    | cons d ds =>
+      have e1 : textHardLoop cur (c :: d :: ds) =
+          if c.nl then cur :: textHardLoop [] (d :: ds) else textHardLoop (cur ++ [c]) (d :: ds) := by
+        rw [textHardLoop]
+      have e2 : VaxisModel.Spec.WrapDraw.splitNlAux cur (c :: d :: ds) =
+          if c.nl then cur :: VaxisModel.Spec.WrapDraw.splitNlAux [] (d :: ds)
+          else VaxisModel.Spec.WrapDraw.splitNlAux (cur ++ [c]) (d :: ds) := by
+        rw [VaxisModel.Spec.WrapDraw.splitNlAux]; simp
+      rw [e1, e2, ih [] (by simp), ih (cur ++ [c]) (by simp)]
+
+open VaxisModel.Model.Wrap in
+/-- `text.hardLines` (the lines of a `Text` that is not soft-wrapped) returns exactly the split of the
+text at the hard line breaks — the same lines as `HardwrapScanner`. -/
+theorem textHardLines_eq_split (cells : List VaxisModel.Model.Wrap.Cell) :
+    textHardLines cells = VaxisModel.Spec.WrapDraw.splitNl cells := by
+  unfold textHardLines VaxisModel.Spec.WrapDraw.splitNl
+  cases cells with
+  | nil => simp [textHardLoop]
+  | cons c cs => simp only [List.isEmpty_cons, Bool.false_eq_true, ↓reduceIte]; exact textHardLoop_eq_split _ _ (by simp)
+
 /-! ### the surface is wide enough for every line shown (up to `Max.Width`) -/
 
 theorem lineWidth_toNat : ∀ (l : List Cell), (∀ c ∈ l, 0 ≤ c.w) → width l < 65536 → (lineWidth l).toNat = width l := by
